@@ -109,7 +109,7 @@ PROP = Prop(
     pid="C16",
     coq_props="theories/C16/Props.v",
     coq_run=["theories/C16/Run.v"],
-    streams=[Stream("passthrough", "c16passthrough", n_quick=300, n_thorough=6000, shards_thorough=4, valid=valid,
+    streams=[Stream("passthrough", "c16passthrough", n_quick=300, n_thorough=3000, shards_thorough=4, valid=valid,
                     classify=classify,
                     what="real Daemon + 1..4 real Peers (vNewPeer) against scripted backends answering GET log "
                          "(rows, Stats with and without group-by columns, unreachable subsets); generated requests "
